@@ -38,6 +38,7 @@ def shards(tier):
     L = describe(tier)['max_len']
     out = [{'kind': 'pairs', 'a': a} for a in lists(L)]
     out += [{'kind': 'frag', 'nf': nf, 'first': i} for nf in (1, 2, 3) for i in range(6)]
+    out += [{'kind': 'frag', 'nf': nf, 'first': i, 'family': 'iso'} for nf in (2, 3) for i in range(6)]
     out.append({'kind': 'frag0'})
     return out
 
@@ -50,7 +51,10 @@ def gen(shard, tier):
     else:
         nf, i = shard['nf'], shard['first']
         for rest in itertools.permutations([j for j in range(6) if j != i], nf - 1):
-            yield {'kind': 'frag', 'fr': [i] + list(rest), 'tier': tier}, nf, True
+            c = {'kind': 'frag', 'fr': [i] + list(rest), 'tier': tier}
+            if shard.get('family'):
+                c['family'] = shard['family']
+            yield c, nf, True
 
 
 def window(a, tol, typ):
@@ -117,20 +121,30 @@ def check(case, ctx):
         ctx.sub_nontrivial = nsub if A else 0
         ctx.outcome = [A, nmatch]
     else:
-        frs_all = p.fragment('PEPK', ['b', 'y'], 1)   # real Fragment objects: b4,b3,b2,b1,y4..y1 (order of the library)
-        frs_all = sorted(frs_all, key=lambda f: (f.ion_type, f.start, f.end))[:6]
+        if case.get('family') == 'iso':
+            # doubly charged isotope peaks: neighbouring fragments are 0.5 Th apart, so two fragments share peaks
+            frs_all = p.fragment('PEPK', ['b'], [2], isotopes=[0, 1, 2])
+            frs_all = sorted(frs_all, key=lambda f: (f.start, f.end, f.isotope))[-6:]
+            base = sorted(f.mz for f in frs_all)
+            peaks_all = [base[0] + 0.1, base[0] + 0.4, base[1] + 0.3, base[3] + 0.05, base[3] + 0.45, 5000.0]
+            ints_all = [1.0, 2.0, 5.0, 2.0, 1.0, 5.0]
+            tolerances = (('th', 0.3), ('th', 0.6), ('th', 1.2), ('ppm', 3000.0))
+        else:
+            frs_all = p.fragment('PEPK', ['b', 'y'], 1)   # real Fragment objects: b4,b3,b2,b1,y4..y1
+            frs_all = sorted(frs_all, key=lambda f: (f.ion_type, f.start, f.end))[:6]
+            base = sorted(f.mz for f in frs_all)
+            # peaks: exactly on fragment 0, +0.25 above fragment 1, between, far away, and 0.5 below fragment 2
+            peaks_all = [base[0], base[1] + 0.25, base[2] - 0.5, base[3] + 0.125, 5000.0, base[0] + 0.5]
+            ints_all = [1.0, 2.0, 5.0, 2.0, 1.0, 5.0]
+            tolerances = (('th', 0.0), ('th', 0.25), ('th', 0.5), ('ppm', 0.0), ('ppm', 2000.0))
         chosen = [frs_all[i] for i in case['fr']]
-        base = sorted(f.mz for f in frs_all)
-        # peaks: exactly on fragment 0, +0.25 above fragment 1, between, far away, and 0.5 below fragment 2
-        peaks_all = [base[0], base[1] + 0.25, base[2] - 0.5, base[3] + 0.125, 5000.0, base[0] + 0.5]
-        ints_all = [1.0, 2.0, 5.0, 2.0, 1.0, 5.0]
         nm = 0
         nsub = 0
         for npk in (0, 1, 2, 3):
             for pk in itertools.permutations(range(6), npk):
                 mzs = [peaks_all[j] for j in pk]
                 ints = [ints_all[j] for j in pk]
-                for typ, tol in (('th', 0.0), ('th', 0.25), ('th', 0.5), ('ppm', 0.0), ('ppm', 2000.0)):
+                for typ, tol in tolerances:
                     for mode in ('all', 'closest', 'largest'):
                         nsub += 1
                         if npk == 0:
